@@ -466,11 +466,17 @@ func (x *entryWorld) familyEntries() {
 		// thorough: every StatusList2021Entry symbol (purpose x list x bit) + suspension list + unknown type
 		small = append(append([]sym{}, full[:16]...), sym{"SL", "suspension", "S", true}, sym{"PLAIN", "", "", false})
 	}
+	inSmall := map[sym]bool{}
+	for _, s := range small {
+		inSmall[s] = true
+	}
 	var seqs [][]sym
 	var shapes, formats []string
 	add := func(shape string, ss ...sym) {
 		seqs, shapes, formats = append(seqs, ss), append(shapes, shape), append(formats, "ldp_vc")
-		if len(ss) <= 2 { // the same credential in the JWT format
+		// the same credential in the JWT format: k = 1 always; k = 2 over the reduced alphabet (thorough: the full product)
+		jwtToo := len(ss) == 1 || (len(ss) == 2 && (r.Thorough() || (inSmall[ss[0]] && inSmall[ss[1]])))
+		if jwtToo {
 			seqs, shapes, formats = append(seqs, ss), append(shapes, shape), append(formats, "jwt_vc")
 		}
 	}
